@@ -20,8 +20,15 @@ def main():
                 print(sid, 'PATCH DOES NOT APPLY (tree changed?)', r.stdout[:200]); continue
             env = dict(os.environ, MSM_REPO=t, VERIF_EVIDENCE_DIR=t + '/evidence')
             det = []; broken = []
-            for p in sorted(props.PROPS):
-                r = subprocess.run([os.path.join(VERIF, 'check'), p], env=env, stdout=subprocess.PIPE, stderr=subprocess.STDOUT, text=True)
+            def one(p):
+                return p, subprocess.run([os.path.join(VERIF, 'check'), p], env=env, stdout=subprocess.PIPE, stderr=subprocess.STDOUT, text=True)
+            # the target property's check first (it extracts the facts of the scratch copy), then the others, a few at a time
+            from concurrent.futures import ThreadPoolExecutor
+            first = meta['property'] if meta['property'] in props.PROPS else sorted(props.PROPS)[0]
+            res = [one(first)]
+            with ThreadPoolExecutor(max_workers=int(os.environ.get('SEED_PAR', '4'))) as ex:
+                res += list(ex.map(one, [p for p in sorted(props.PROPS) if p != first]))
+            for p, r in sorted(res):
                 if r.returncode == 1:
                     rules = sorted({l.split(': rule ')[1].split(' ')[0] for l in r.stdout.splitlines() if ': rule ' in l})
                     det.append({'property': p, 'rules': rules})
